@@ -111,6 +111,7 @@ type XScenario struct {
 	Client       string `json:"client"` // "base" | "cache"
 	Plain        bool   `json:"plain,omitempty"`
 	NilCallbacks bool   `json:"nil_callbacks,omitempty"`
+	Callbacks    string `json:"callbacks,omitempty"` // see Scenario.Callbacks
 	BaseDelay    int    `json:"base_delay"`
 	MaxDelay     int    `json:"max_delay"`
 	Timeout      int    `json:"timeout,omitempty"`
@@ -126,7 +127,7 @@ type XScenario struct {
 
 // half is the half-A view: delays, instants and the clauses of world.judge.
 func (sc *XScenario) half() *Scenario {
-	return &Scenario{Client: sc.Client, Plain: sc.Plain, NilCallbacks: sc.NilCallbacks, BaseDelay: sc.BaseDelay, MaxDelay: sc.MaxDelay,
+	return &Scenario{Client: sc.Client, Plain: sc.Plain, NilCallbacks: sc.NilCallbacks, Callbacks: sc.Callbacks, BaseDelay: sc.BaseDelay, MaxDelay: sc.MaxDelay,
 		Timeout: sc.Timeout, SubAt: sc.SubAt, Stop: sc.Stop, StopAt: sc.StopAt}
 }
 
@@ -199,6 +200,9 @@ func (sc *XScenario) validate() error {
 	}
 	if sc.Plain && sc.StopAt < sc.SubAt {
 		return fmt.Errorf("plain client stopped before Subscribe")
+	}
+	if err := validCallbacks(sc.Plain, sc.NilCallbacks, sc.Callbacks); err != nil {
+		return err
 	}
 	if len(sc.Types) > 8 {
 		return fmt.Errorf("%d client types", len(sc.Types))
@@ -723,14 +727,12 @@ func runX(sc *XScenario, w *xworld, st *stats, part string) *verr {
 	case sc.Plain:
 		c = &traceClient{Client: inner, w: w.world}
 		st.label("plain-client")
-	case sc.NilCallbacks:
-		c = client.Reconnect(&traceClient{Client: inner, w: w.world}, nil, nil)
-		st.label("reconnect-nil-callbacks")
 	default:
-		c = client.Reconnect(&traceClient{Client: inner, w: w.world},
+		var l string
+		c, l = mkReconnect(&traceClient{Client: inner, w: w.world}, sc.NilCallbacks, sc.Callbacks,
 			func() { w.record("disconnect", -1, "") },
 			func() { w.record("reset", -1, "") })
-		st.label("reconnect-client")
+		st.label(l)
 	}
 	ctx, cancel := context.WithCancel(context.Background())
 	defer cancel()
@@ -763,7 +765,8 @@ func runX(sc *XScenario, w *xworld, st *stats, part string) *verr {
 	subscribe := func() {
 		w.record("sub-call", -1, fmt.Sprintf("types %q", types))
 		go func() {
-			err := c.Subscribe(ctx, q, types...)
+			err := guarded(func() error { return c.Subscribe(ctx, q, types...) })
+			w.notePanic("Subscribe", err)
 			w.record("ret", -1, fmt.Sprint(err))
 		}()
 		synctest.Wait()
@@ -771,7 +774,8 @@ func runX(sc *XScenario, w *xworld, st *stats, part string) *verr {
 	closeClient := func() {
 		w.record("close-call", -1, "")
 		go func() {
-			err := c.Close()
+			err := guarded(c.Close)
+			w.notePanic("Close", err)
 			w.mu.Lock()
 			w.events = append(w.events, event{Kind: "close-ret", Attempt: -1, At: w.now(), Note: fmt.Sprint(err)})
 			if w.closeRet < 0 {
@@ -916,6 +920,10 @@ func runX(sc *XScenario, w *xworld, st *stats, part string) *verr {
 	fin := func(v *verr) *verr {
 		v.msg += "\nhistory: " + w.dump()
 		return v
+	}
+	if w.paniced != "" {
+		// (takes precedence: what followed the panic is its consequence)
+		return fin(newVerr("panic", "%s", w.paniced))
 	}
 	if v != nil {
 		return fin(v)
